@@ -24,7 +24,12 @@ RULE = ("Tag multisets of size <= 3 (quick) / <= 4 (thorough; size 5 with plain 
         "providers {dict, ActiveTagValueProvider, CompositeActiveTagValueProvider over two providers queried three "
         "times with a probe query in between}; for plain strings additionally custom prefix lists, custom separators "
         "':' and '==', CompositeTagMatcher of 0/1/2 members and with a PredicateTagMatcher. Boolean sweep: multisets "
-        "<= 3 (<= 4) over 10 boolean tags x current True/False/absent x eager/lazy x 3 providers. Shipped providers: "
+        "<= 3 (<= 4) over 10 boolean tags x current True/False/absent x eager/lazy x 3 providers. Known category with current value None / '' / 0 / False (category a; b "
+        "present or absent): multisets <= 3 (<= 4) over a 14-tag alphabet (incl. empty tag value and the tag values "
+        "None, 0, False) x value supplied raw / by a callable / as ValueObject / ValueObject over a callable / "
+        "NumberValueObject(0) x providers {dict, ActiveTagValueProvider, Composite with the category in the first "
+        "resp. the last member} each queried twice, plus a CompositeTagMatcher; such a category is known: its "
+        "positives do not match (excluded), its negatives do not match. Shipped providers: "
         "multisets <= 2 (<= 3) over ~100 tags (every category of behave.active_tag.python and .python_feature x "
         "prefixes x matching/non-matching/malformed values, versions below/equal/above the running interpreter) x "
         "{python dict, python_feature dict, ActiveTagValueProvider(python), Composite(python, python_feature)}, expected "
@@ -33,7 +38,9 @@ RULE = ("Tag multisets of size <= 3 (quick) / <= 4 (thorough; size 5 with plain 
         "should_exclude_with. A case is non-trivial when it carries at least one active tag of a known category; "
         "distinct = distinct (multiset, assignment).")
 ASSUMPTIONS = [
-    "a category is 'known to the value provider' when provider.get(category, <sentinel>) does not return the sentinel",
+    "a category is 'known to the value provider' when provider.get(category, <sentinel>) does not return the sentinel "
+    "- in particular a category whose current value is None, '', 0 or False is known",
+    "a current value that is not a string and is compared with the default operator equals no tag text (0 != '0')",
     "composite providers are built from providers with disjoint categories (precedence among providers that share a "
     "category is not stated and not checked)",
     "lazy callables return the same value on every call",
@@ -379,6 +386,103 @@ def check_bool(case):
     return {"v": v, "nt": nt, "out": ("bool", obs[0][2]), "dg": obs, "n": n}
 
 
+# ---- known categories whose current value is None / falsy ------------------------------------------
+# A category is known as soon as the provider has an entry for it - also when the entry's value is None
+# (os.environ.get("X") with X unset), "", 0 or False.  Per the statement such a category has positive tags that do
+# not match (-> excluded) and negative tags that do not match (-> not excluded); it is NOT an unknown category.
+FALSY_ALPHABET = ("use.with_a=1", "not.with_a=1", "only.with_a=1", "active.with_a=1", "not_active.with_a=1",
+                  "use.with_a=", "not.with_a=", "use.with_a=None", "use.with_a=0", "not.with_a=False",
+                  "use.with_b=x", "not.with_b=x", "use.with_zz=1", "foo")
+FALSY_VALUES = (("None", None), ("empty-string", ""), ("zero", 0), ("False", False))
+FALSY_SUPPLY = ("raw", "lazy", "vo", "vo_lazy", "num")
+FALSY_PROVIDERS = ("dict", "atvp", "comp", "comp_rev")
+
+
+def falsy_real(supply, cur):
+    if supply == "raw":
+        return cur
+    if supply == "lazy":
+        return lambda: cur
+    if supply == "vo":
+        return TM.ValueObject(cur)
+    if supply == "vo_lazy":
+        return TM.ValueObject(lambda: cur)
+    if supply == "num":
+        return TM.NumberValueObject(cur)
+    raise ValueError(supply)
+
+
+def falsy_predicate(supply, cur):
+    if supply == "num":
+        return lambda v: is_int_text(v) and cur == int(v)
+    return lambda v: v == cur           # plain equality with the current value: None/0/False equal no tag text
+
+
+def falsy_provider(pkind, vals):
+    if pkind == "comp_rev":             # the None-valued category lives in the LAST provider of the composite
+        first = dict((c, v) for c, v in vals if c != "a")
+        second = dict((c, v) for c, v in vals if c == "a")
+        return TM.CompositeActiveTagValueProvider([TM.ActiveTagValueProvider(first), second])
+    return make_provider(pkind, vals)
+
+
+def check_falsy(case):
+    """one (tag multiset, falsy current value of category a, b present?)"""
+    idxs, fi, with_b = case
+    fname, cur = FALSY_VALUES[fi]
+    tags_up = tuple(FALSY_ALPHABET[i] for i in idxs)
+    orders = [tags_up] if len(set(tags_up)) <= 1 else [tags_up, tuple(reversed(tags_up))]
+    v, obs, n = [], [], 0
+    memo = {}
+    for supply in FALSY_SUPPLY:
+        if supply == "num" and fname != "zero":
+            continue
+        known = {"a": falsy_predicate(supply, cur)}
+        if with_b:
+            known["b"] = lambda tv: tv == "x"
+
+        def vals(supply=supply):
+            out = [("a", falsy_real(supply, cur))]
+            if with_b:
+                out.append(("b", "x"))
+            return out
+
+        def make(pkind, vals=vals):
+            return TM.ActiveTagMatcher(falsy_provider(pkind, vals()))
+        label = "current-value-%s" % fname if supply != "num" else "current-value-zero-number"
+        for pkind in FALSY_PROVIDERS:
+            for oi, tags in enumerate(orders):
+                want = ref_exclude(tags, known)
+                m = make(pkind)
+                got = query(m, tags)
+                g2 = query(m, tags)                 # same matcher again: composite cache holds the None
+                n += 2
+                obs.append((supply, pkind, oi, got, g2))
+                what = "category a known with current value %r (supplied as %s), provider %s" % (cur, supply, pkind)
+                judge(v, got, want, what, tags,
+                      lambda tags=tags, known=known, make=make, pkind=pkind, label=label:
+                      diagnose(tags, known, make, "dict" if pkind == "dict" else pkind, label, memo),
+                      extra={"kind": label, "provider": family(pkind)} if got[0] == "EXC" else None)
+                if got[0] == want and g2 != got:
+                    v.append(({"subcheck": "exclude", "clause": "changes-on-requery", "kind": label,
+                               "provider": family(pkind)},
+                              "%s: tags %r -> first query %r, second query of the same matcher %r" % (what, list(tags), got, g2)))
+    # composite matcher with a member whose only category has the falsy value
+    known_a = {"a": falsy_predicate("raw", cur)}
+    known_b = {"b": (lambda tv: tv == "x")} if with_b else {}
+    cm = TM.CompositeTagMatcher([TM.ActiveTagMatcher({"a": cur}), TM.ActiveTagMatcher({"b": "x"} if with_b else {})])
+    got = query(cm, tags_up)
+    n += 1
+    obs.append(("composite-matcher", got))
+    want = ref_exclude(tags_up, known_a) or ref_exclude(tags_up, known_b)
+    if not v:           # otherwise the single matcher already decides this case wrongly: reported above
+        judge(v, got, want, "CompositeTagMatcher[{a: %r}, {b}]" % (cur,), tags_up, extra={"variant": "composite"})
+    nt = None
+    if any((parse_active(t, DEFAULT_PREFIXES, "=") or (0, None))[1] == "a" for t in tags_up):
+        nt = ("falsy", case)
+    return {"v": v, "nt": nt, "out": ("falsy", fname, obs[0][3]), "dg": obs, "n": n}
+
+
 # ---- shipped providers ---------------------------------------------------------------------------
 def _probe_features():
     import keyword
@@ -527,7 +631,8 @@ def run(ctx):
     bsize = 3 if ctx.quick else 4
     ssize = 2 if ctx.quick else 3
     ntags = len(shipped_tags())
-    ctx.bounds = {"multiset_size": size, "multiset_size_plain_strings": size if ctx.quick else 5, "alphabet": list(ALPHABET), "assignments": len(ASSIGNMENTS),
+    ctx.bounds = {"multiset_size": size, "multiset_size_plain_strings": size if ctx.quick else 5,
+                  "falsy_current_values": [n for n, _ in FALSY_VALUES], "falsy_alphabet": list(FALSY_ALPHABET), "alphabet": list(ALPHABET), "assignments": len(ASSIGNMENTS),
                   "value_kinds": list(KINDS), "providers": ["dict", "ActiveTagValueProvider", "Composite(2)"],
                   "bool_multiset_size": bsize, "shipped_tag_pool": ntags, "shipped_multiset_size": ssize}
     ctx.note("python", ".".join(map(str, sys.version_info[:3])))
@@ -541,6 +646,9 @@ def run(ctx):
     ctx.sweep(check_bool, ((ms, cur, lazy) for ms in multisets(len(BOOL_ALPHABET), bsize)
                            for cur in (True, False, None) for lazy in (False, True) if not (cur is None and lazy)),
               chunk=32, name="boolean value objects")
+    ctx.sweep(check_falsy, ((ms, fi, wb) for ms in multisets(len(FALSY_ALPHABET), size)
+                            for fi in range(len(FALSY_VALUES)) for wb in (0, 1)),
+              chunk=32, name="known category with None/falsy current value")
     ctx.sweep(check_shipped, multisets(ntags, ssize), chunk=64, name="shipped providers")
 
     py, pf = shipped_reference()
@@ -551,6 +659,10 @@ def run(ctx):
     ctx.guard(sum(1 for k in ctx.nt if k[0] == "main") > 5000,
               "at least 5000 distinct (multiset, assignment) with an active tag of a known category")
     ctx.guard(sum(1 for k in ctx.nt if k[0] == "bool") > 500, "at least 500 non-trivial boolean cases")
+    ctx.guard(sum(1 for k in ctx.nt if k[0] == "falsy") > 2000, "at least 2000 non-trivial None/falsy-value cases")
+    fo = set(k[1:] for k in ctx.outcomes if k[0] == "falsy")
+    ctx.guard(all((name, (True, False)) in fo and (name, (False, True)) in fo for name, _ in FALSY_VALUES),
+              "for every falsy current value both verdicts (exclude / run) were observed")
     ctx.guard(seen >= set(py) | set(pf), "every category of both shipped providers was decided at least once")
     ctx.guard(sum(1 for k in ctx.nt if k[0] == "shipped") > 1000, "at least 1000 non-trivial shipped-provider cases")
     outs_main = set(k[1] for k in ctx.outcomes if k[0] == "main")
